@@ -137,16 +137,77 @@ type World struct {
 	Window *WindowMonitor
 	yield  *YieldPlan
 	jitter atomic.Int64
-	start  time.Time
+	// symptom collection (CollectSymptoms / FlushSymptoms)
+	symptomProp string
+	symptomKey  string
+	symptoms    []string
+	start       time.Time
 }
 
 // Violate records a violation.
 func (w *World) Violate(prop, key, format string, args ...any) {
 	w.mu.Lock()
 	defer w.mu.Unlock()
+	if w.symptomProp != "" && prop == w.symptomProp {
+		// collected as symptoms of one finding (see CollectSymptoms)
+		w.symptoms = append(w.symptoms, key+": "+fmt.Sprintf(format, args...))
+		return
+	}
 	if len(w.Violations) < 50 {
 		w.Violations = append(w.Violations, Violation{Prop: prop, Key: key, Msg: fmt.Sprintf(format, args...)})
 	}
+}
+
+// CollectSymptoms makes violations of prop accumulate instead of being recorded
+// one by one, until FlushSymptoms turns them into a single violation. Used where
+// one observed condition (a receive loop parked on an unread revision-zero
+// stream) explains a whole bundle of symptoms: the bundle is then keyed by the
+// condition, not by each symptom, so that the known-findings list stays specific.
+func (w *World) CollectSymptoms(prop, key string) {
+	w.mu.Lock()
+	w.symptomProp, w.symptomKey, w.symptoms = prop, key, nil
+	w.mu.Unlock()
+}
+
+// FlushSymptoms ends the collection (Finish does it, before tearing down); if
+// anything was collected it is recorded as one violation under the key given
+// to CollectSymptoms.
+func (w *World) FlushSymptoms() {
+	w.mu.Lock()
+	prop, key, syms := w.symptomProp, w.symptomKey, w.symptoms
+	w.symptomProp, w.symptomKey, w.symptoms = "", "", nil
+	w.mu.Unlock()
+	if prop != "" && len(syms) > 0 {
+		if len(syms) > 12 {
+			syms = append(syms[:12], fmt.Sprintf("... and %d more", len(syms)-12))
+		}
+		w.Violate(prop, key, "%d symptom(s):\n  %s", len(syms), strings.Join(syms, "\n  "))
+	}
+}
+
+// parkedRev0Loop reports which receive loop, if any, is at this moment parked
+// handing a frame to a revision-zero stream that nobody reads.
+func parkedRev0Loop() string {
+	calling, serving := false, false
+	for _, g := range BubbleGoroutines() {
+		if strings.Contains(g, "noFlowControlReceiver") && strings.Contains(g, ".accept(") {
+			switch {
+			case strings.Contains(g, ".recvLoop("):
+				calling = true
+			case strings.Contains(g, "(*tunnelServer).serve("):
+				serving = true
+			}
+		}
+	}
+	switch {
+	case calling && serving:
+		return ":receive-loops-of-both-sides-parked-on-unread-rev0-streams"
+	case calling:
+		return ":calling-side-receive-loop-parked-on-unread-rev0-stream"
+	case serving:
+		return ":serving-side-receive-loop-parked-on-unread-rev0-stream"
+	}
+	return ""
 }
 
 // Stat adds to a named counter.
@@ -597,6 +658,7 @@ func BubbleGoroutines() []string {
 // Finish tears the world down, drains to quiescence and runs the
 // end-of-scenario monitors. It must be the last call of a scenario.
 func (w *World) Finish() {
+	w.FlushSymptoms()
 	// 1. quiescent table check while tunnels are still up is done by scenarios
 	// via CheckTables. Here: tear down.
 	w.Wait()
